@@ -147,6 +147,7 @@ type task struct {
 	waitDir   int            // ... and the direction (1 receive, 2 send)
 	sel             []SelCase // tsPolling in a select: its cases
 	parkAfterSelect bool      // after the select has fired this task parks as runnable (it was the sender of a rendezvous)
+	callStart uint64         // yield count at the start of the current library call
 	mapRng    uint64         // stream that permutes map iteration orders (MapKeys)
 	meet      bool           // the partner of an unbuffered rendezvous has arrived: complete it with a blocking operation
 }
@@ -262,7 +263,7 @@ func Yield(site uint32) {
 	if hot && cfg.RecordHot && len(t.hot) < cap(t.hot) {
 		t.hot = append(t.hot, HotYield{t.n, site})
 	}
-	if t.n > cfg.Budget {
+	if t.n-t.callStart > cfg.Budget {
 		outcome = OutcomeBudget
 		detail = "step budget exceeded"
 		abort(t)
@@ -327,6 +328,7 @@ func CallStart() {
 	}
 	reschedule(t, EvCallStart)
 	t.inCall = true
+	t.callStart = t.n // the step budget is per call
 }
 
 // CallEnd marks the end of a library call by the current task (a scheduling point).
